@@ -176,6 +176,66 @@ func Purity(w *load.World, c *core.Collector) {
 		return
 	}
 	nHash := 0
+	// the scoring loop may have been moved into a helper: analyse it where it lives, with the
+	// helper's parameters standing for the key and the server list
+	top := rh
+	isHashCall := func(in ssa.Instruction) bool {
+		call, ok := in.(*ssa.Call)
+		if !ok {
+			return false
+		}
+		if g := call.Call.StaticCallee(); g != nil {
+			for _, h := range pureHashes {
+				if strings.Contains(g.String(), h) {
+					return true
+				}
+			}
+		}
+		name := ""
+		if call.Call.IsInvoke() {
+			name = call.Call.Method.Name()
+		}
+		return name == "Sum64" || name == "Sum32"
+	}
+	if home := homeOf(rh, func(g *ssa.Function) bool {
+		for _, b := range g.Blocks {
+			for _, in := range b.Instrs {
+				if isHashCall(in) {
+					return true
+				}
+			}
+		}
+		return false
+	}); home != rh && len(home.Params) >= 2 {
+		// map the parameters through the call site
+		var kp, sp *ssa.Parameter
+		for _, b := range rh.Blocks {
+			for _, in := range b.Instrs {
+				if ssax.StaticModuleCallee(in) != home {
+					continue
+				}
+				for i, a := range in.(ssa.CallInstruction).Common().Args {
+					if i >= len(home.Params) {
+						break
+					}
+					if a == ssa.Value(rh.Params[0]) {
+						kp = home.Params[i]
+					}
+					if a == ssa.Value(rh.Params[1]) {
+						sp = home.Params[i]
+					}
+				}
+			}
+		}
+		if kp != nil && sp != nil {
+			rh = home
+			purityKey, purityServers = kp, sp
+		}
+	}
+	if purityKey == nil {
+		purityKey, purityServers = rh.Params[0], rh.Params[1]
+	}
+	defer func() { purityKey, purityServers = nil, nil }()
 	for _, b := range rh.Blocks {
 		for _, in := range b.Instrs {
 			call, ok := in.(*ssa.Call)
@@ -194,8 +254,8 @@ func Purity(w *load.World, c *core.Collector) {
 			}
 			if isHash {
 				nHash++
-				o := ssax.Prov(call.Call.Args[0])
-				pKey, pServers := "param:"+rh.Params[0].Name(), "elem(param:"+rh.Params[1].Name()+")"
+				o := hashInputLabels(call.Call.Args[0], purityKey, 0)
+				pKey, pServers := "param:"+purityKey.Name(), "elem(param:"+purityServers.Name()+")"
 				var bad []string
 				for k := range o {
 					switch {
@@ -363,7 +423,7 @@ func Purity(w *load.World, c *core.Collector) {
 					o[k] = true
 				}
 			}
-			pKey, pServers := "param:"+rh.Params[0].Name(), "elem(param:"+rh.Params[1].Name()+")"
+			pKey, pServers := "param:"+purityKey.Name(), "elem(param:"+purityServers.Name()+")"
 			var bad []string
 			for k := range o {
 				switch {
@@ -389,6 +449,7 @@ func Purity(w *load.World, c *core.Collector) {
 	if nHash != 1 {
 		c.Add("PURITY", "anchor:hash-call", core.Undecided, w.Position(rh.Pos()), fmt.Sprintf("expected exactly one call to a pure hash in RendezvousHash, found %d", nHash), props...)
 	}
+	rh = top
 	// the result is a prefix of the sorted slice: every returned element derives from the scored slice only
 	for _, b := range rh.Blocks {
 		for _, in := range b.Instrs {
@@ -731,57 +792,151 @@ func cmpEdges(f *ssa.Function, wantX, wantY func(ssax.Origins) bool, eq bool) []
 	return out
 }
 
+// cmpEdgesV: like cmpEdges with predicates over the operand values themselves.
+func cmpEdgesV(f *ssa.Function, wantX, wantY func(ssa.Value) bool, eq bool) []ssax.Edge {
+	var out []ssax.Edge
+	for _, b := range f.Blocks {
+		ifi, ok := b.Instrs[len(b.Instrs)-1].(*ssa.If)
+		if !ok {
+			continue
+		}
+		bo, ok := ifi.Cond.(*ssa.BinOp)
+		if !ok || (bo.Op != token.EQL && bo.Op != token.NEQ) {
+			continue
+		}
+		if !((wantX(bo.X) && wantY(bo.Y)) || (wantX(bo.Y) && wantY(bo.X))) {
+			continue
+		}
+		holdsOnTrue := bo.Op == token.EQL
+		if holdsOnTrue == eq {
+			out = append(out, ssax.Edge{From: b, Succ: 0})
+		} else {
+			out = append(out, ssax.Edge{From: b, Succ: 1})
+		}
+	}
+	return out
+}
+
 func Transfer(w *load.World, c *core.Collector) {
 	props := []string{"C14"}
 	f := findFn(w, "(*cluster.ClusterNode).sendShardFile")
 	if f == nil {
 		c.Add("TRANSFER", "anchor:sendShardFile", core.Undecided, "", "sender not found", props...)
 	} else {
+		// the sender and the helpers it calls (a refactoring may move the verification and the
+		// removal into one): a guard counts when it dominates the removal in its own function or
+		// dominates every call site through which that function is reached
+		fam := []*ssa.Function{f}
+		type tsite struct {
+			in *ssa.Function
+			at ssa.Instruction
+		}
+		tcallers := map[*ssa.Function][]tsite{}
+		for i := 0; i < len(fam) && i < 8; i++ {
+			for _, b := range fam[i].Blocks {
+				for _, in := range b.Instrs {
+					h := ssax.StaticModuleCallee(in)
+					if h == nil || len(h.Blocks) == 0 || load.PkgPath(h) != clusterPkg || strings.HasPrefix(h.Name(), "RPC") || h.Name() == "FileHash" {
+						continue
+					}
+					known := false
+					for _, x := range fam {
+						if x == h {
+							known = true
+						}
+					}
+					if !known {
+						fam = append(fam, h)
+					}
+					tcallers[h] = append(tcallers[h], tsite{fam[i], in})
+				}
+			}
+		}
 		var rpc, hash *ssa.Call
-		var removes []*ssa.Call
-		for _, b := range f.Blocks {
-			for _, in := range b.Instrs {
-				call, ok := in.(*ssa.Call)
-				if !ok {
-					continue
-				}
-				g := call.Call.StaticCallee()
-				if g == nil {
-					continue
-				}
-				switch {
-				case load.FnKey(g) == "(*cluster.ClusterNode).RPCSendShard":
-					rpc = call
-				case load.FnKey(g) == "cluster.FileHash":
-					hash = call
-				case g.String() == "os.RemoveAll" || g.String() == "os.Remove":
-					removes = append(removes, call)
+		type rmSite struct {
+			fn   *ssa.Function
+			call *ssa.Call
+		}
+		var removes []rmSite
+		for _, fn := range fam {
+			for _, b := range fn.Blocks {
+				for _, in := range b.Instrs {
+					call, ok := in.(*ssa.Call)
+					if !ok {
+						continue
+					}
+					g := call.Call.StaticCallee()
+					if g == nil {
+						continue
+					}
+					switch {
+					case load.FnKey(g) == "(*cluster.ClusterNode).RPCSendShard":
+						rpc = call
+					case load.FnKey(g) == "cluster.FileHash":
+						hash = call
+					case g.String() == "os.RemoveAll" || g.String() == "os.Remove":
+						removes = append(removes, rmSite{fn, call})
+					}
 				}
 			}
 		}
 		if rpc == nil || hash == nil || len(removes) == 0 {
 			c.Add("TRANSFER", "sender:anchors", core.Undecided, w.Position(f.Pos()), "send / checksum / remove calls not all found in sendShardFile", props...)
 		} else {
-			_, rpcOK := ssax.NilTests(f, rpc)
-			hashErr := resultValue(hash, 1)
-			var hashOK []ssax.Edge
-			if hashErr != nil {
-				_, hashOK = ssax.NilTests(f, hashErr)
+			rpcOKIn := func(fn *ssa.Function) []ssax.Edge {
+				if rpc.Parent() != fn {
+					return nil
+				}
+				_, e := ssax.NilTests(fn, rpc)
+				return e
 			}
-			sumEq := cmpEdges(f, func(o ssax.Origins) bool { return o["call:"+clusterPkg+".FileHash"] }, func(o ssax.Origins) bool { return o["field:Checksum"] }, true)
-			bytesEq := cmpEdges(f, func(o ssax.Origins) bool { return o["field:BytesWritten"] }, func(o ssax.Origins) bool { return true }, true)
-			for _, rm := range removes {
+			hashOKIn := func(fn *ssa.Function) []ssax.Edge {
+				if hash.Parent() != fn {
+					return nil
+				}
+				if hashErr := resultValue(hash, 1); hashErr != nil {
+					_, e := ssax.NilTests(fn, hashErr)
+					return e
+				}
+				return nil
+			}
+			deepLabel := func(label string) func(v ssa.Value) bool {
+				return func(v ssa.Value) bool { return ssax.Prov(v)[label] || deepHas(w, v, label) }
+			}
+			sumEqIn := func(fn *ssa.Function) []ssax.Edge {
+				return cmpEdgesV(fn, deepLabel("call:"+clusterPkg+".FileHash"), deepLabel("field:Checksum"), true)
+			}
+			bytesEqIn := func(fn *ssa.Function) []ssax.Edge {
+				return cmpEdgesV(fn, deepLabel("field:BytesWritten"), func(ssa.Value) bool { return true }, true)
+			}
+			var guardedDeep func(fn *ssa.Function, blk *ssa.BasicBlock, edgesIn func(*ssa.Function) []ssax.Edge, depth int) bool
+			guardedDeep = func(fn *ssa.Function, blk *ssa.BasicBlock, edgesIn func(*ssa.Function) []ssax.Edge, depth int) bool {
+				if onlyViaAny(edgesIn(fn), blk) {
+					return true
+				}
+				if fn == f || depth > 3 || len(tcallers[fn]) == 0 {
+					return false
+				}
+				for _, cs := range tcallers[fn] {
+					if !guardedDeep(cs.in, cs.at.Block(), edgesIn, depth+1) {
+						return false
+					}
+				}
+				return true
+			}
+			for _, rs := range removes {
+				rm := rs.call
 				var missing []string
-				if !onlyViaAny(rpcOK, rm.Block()) {
+				if !guardedDeep(rs.fn, rm.Block(), rpcOKIn, 0) {
 					missing = append(missing, "successful chunk RPC")
 				}
-				if !onlyViaAny(bytesEq, rm.Block()) {
+				if !guardedDeep(rs.fn, rm.Block(), bytesEqIn, 0) {
 					missing = append(missing, "BytesWritten == n")
 				}
-				if !onlyViaAny(hashOK, rm.Block()) {
+				if !guardedDeep(rs.fn, rm.Block(), hashOKIn, 0) {
 					missing = append(missing, "successful local checksum")
 				}
-				if !onlyViaAny(sumEq, rm.Block()) {
+				if !guardedDeep(rs.fn, rm.Block(), sumEqIn, 0) {
 					missing = append(missing, "checksum equality with the receiver")
 				}
 				// scope: a recursive removal may only hit the directory of the file that was sent;
@@ -820,8 +975,8 @@ func Transfer(w *load.World, c *core.Collector) {
 	}
 	// syncUserCollections: Delete only after RPC ok and Count == len(KeyValues)
 	for _, g := range clusterFns(w) {
-		if !strings.HasPrefix(load.FnKey(g), "(*cluster.ClusterNode).syncUserCollections$") {
-			continue
+		if strings.Contains(load.FnKey(g), "RPCSetNodeKeyValue") {
+			continue // the receiving handler itself
 		}
 		var rpc *ssa.Call
 		var write *ssa.Call
@@ -1340,7 +1495,13 @@ func Quota(w *load.World, c *core.Collector) {
 		if !ok {
 			continue
 		}
-		ox, oy := ssax.Prov(bo.X), ssax.Prov(bo.Y)
+		ox, oy := map[string]bool{}, map[string]bool{}
+		if deepHas(w, bo.X, "field:MaxCollections") {
+			ox["field:MaxCollections"] = true
+		}
+		if deepHas(w, bo.Y, "field:MaxCollections") {
+			oy["field:MaxCollections"] = true
+		}
 		if !(ox["field:MaxCollections"] || oy["field:MaxCollections"]) {
 			continue
 		}
@@ -1388,58 +1549,11 @@ func Lifecycle(w *load.World, c *core.Collector) {
 					continue
 				}
 				// where is the loaded value used other than in a nil comparison?
-				var useBlocks []*ssa.BasicBlock
-				for _, r := range *u.Referrers() {
-					switch x := r.(type) {
-					case *ssa.BinOp:
-						if !(ssax.IsNilConst(x.X) || ssax.IsNilConst(x.Y)) {
-							useBlocks = append(useBlocks, x.Block())
-						}
-					case *ssa.DebugRef:
-					case *ssa.Phi:
-						useBlocks = append(useBlocks, x.Block())
-					default:
-						useBlocks = append(useBlocks, r.Block())
-					}
-				}
-				if len(useBlocks) == 0 {
+				used, guarded := shardUsesGuarded(w, f, u, 0)
+				if !used {
 					continue
 				}
 				n++
-				p, _ := ssax.Path(u)
-				// every use must sit behind the non-nil edge of a test of this value
-				// (or of another load of the same access path)
-				guarded := true
-				for _, ub := range useBlocks {
-					okUse := false
-					for _, bb := range f.Blocks {
-						ifi, ok := bb.Instrs[len(bb.Instrs)-1].(*ssa.If)
-						if !ok {
-							continue
-						}
-						bo, ok := ifi.Cond.(*ssa.BinOp)
-						if !ok || !(ssax.IsNilConst(bo.X) || ssax.IsNilConst(bo.Y)) {
-							continue
-						}
-						other := bo.X
-						if ssax.IsNilConst(bo.X) {
-							other = bo.Y
-						}
-						if op, _ := ssax.Path(other); other != ssa.Value(u) && op != p {
-							continue
-						}
-						edge := 0
-						if bo.Op == token.EQL {
-							edge = 1
-						}
-						if ssax.OnlyViaEdge(bb, edge, ub) {
-							okUse = true
-						}
-					}
-					if !okUse {
-						guarded = false
-					}
-				}
 				key := "shard-nil-check:" + load.FnKey(f)
 				if guarded {
 					c.Add("LIFECYCLE", key, core.OK, w.At(in), "", props...)
@@ -1504,7 +1618,7 @@ func Lifecycle(w *load.World, c *core.Collector) {
 				}
 			}
 		}
-		if rm != nil && del != nil && ssax.Precedes(del, rm) {
+		if rm != nil && del != nil && (ssax.Precedes(del, rm) || !reachesWithoutUnregister(f, del, rm)) {
 			c.Add("LIFECYCLE", "remove-after-unregister", core.OK, w.At(rm), "", props...)
 		} else {
 			c.Add("LIFECYCLE", "remove-after-unregister", core.Violation, w.Position(f.Pos()), "shard files are removed while the shard is still registered as loaded", props...)
@@ -1678,4 +1792,303 @@ func RetryLoop(w *load.World, c *core.Collector) {
 	default:
 		c.Add("ROUTE", "retry-gives-attempt-back", core.OK, w.Position(f.Pos()), "", props...)
 	}
+}
+
+// shardUsesGuarded: every use of the loaded shard pointer v in f sits behind the
+// non-nil edge of a nil test of that value (or of another load of the same
+// access path). A helper that returns the pointer (it took the lock and read
+// it) passes the obligation to its call sites, where the returned value must
+// be tested before it is used.
+func shardUsesGuarded(w *load.World, f *ssa.Function, v ssa.Value, depth int) (used, guarded bool) {
+	var useBlocks []*ssa.BasicBlock
+	returned := map[int]bool{}
+	for _, r := range *v.Referrers() {
+		switch x := r.(type) {
+		case *ssa.BinOp:
+			if !(ssax.IsNilConst(x.X) || ssax.IsNilConst(x.Y)) {
+				useBlocks = append(useBlocks, x.Block())
+			}
+		case *ssa.DebugRef:
+		case *ssa.Return:
+			for i, res := range x.Results {
+				if res == v {
+					returned[i] = true
+				}
+			}
+		case *ssa.Phi:
+			useBlocks = append(useBlocks, x.Block())
+		default:
+			useBlocks = append(useBlocks, r.Block())
+		}
+	}
+	if len(useBlocks) == 0 && len(returned) == 0 {
+		return false, true
+	}
+	p, _ := ssax.Path(v)
+	guarded = true
+	for _, ub := range useBlocks {
+		okUse := false
+		for _, bb := range f.Blocks {
+			ifi, ok := bb.Instrs[len(bb.Instrs)-1].(*ssa.If)
+			if !ok {
+				continue
+			}
+			bo, ok := ifi.Cond.(*ssa.BinOp)
+			if !ok || !(ssax.IsNilConst(bo.X) || ssax.IsNilConst(bo.Y)) {
+				continue
+			}
+			other := bo.X
+			if ssax.IsNilConst(bo.X) {
+				other = bo.Y
+			}
+			if op, _ := ssax.Path(other); other != v && op != p {
+				continue
+			}
+			edge := 0
+			if bo.Op == token.EQL {
+				edge = 1
+			}
+			if ssax.OnlyViaEdge(bb, edge, ub) {
+				okUse = true
+			}
+		}
+		if !okUse {
+			guarded = false
+		}
+	}
+	if len(returned) > 0 {
+		// the callers' business
+		sites := 0
+		for _, g := range w.Fns {
+			for _, b := range g.Blocks {
+				for _, in := range b.Instrs {
+					call, ok := in.(*ssa.Call)
+					if !ok || call.Call.StaticCallee() != f {
+						continue
+					}
+					sites++
+					for idx := range returned {
+						var rv ssa.Value = call
+						if f.Signature.Results().Len() > 1 {
+							rv = nil
+							for _, r := range *call.Referrers() {
+								if ex, ok := r.(*ssa.Extract); ok && ex.Index == idx {
+									rv = ex
+								}
+							}
+						}
+						if rv == nil || depth > 1 {
+							continue
+						}
+						if _, g2 := shardUsesGuarded(w, g, rv, depth+1); !g2 {
+							guarded = false
+						}
+					}
+				}
+			}
+		}
+		if sites == 0 {
+			guarded = false
+		}
+	}
+	return true, guarded
+}
+
+// reachesWithoutUnregister: the removal can be reached on a path that neither
+// deletes the store entry nor learnt from the lookup that there is no entry.
+func reachesWithoutUnregister(f *ssa.Function, del, rm ssa.Instruction) bool {
+	var banned []ssax.Edge
+	for _, b := range f.Blocks {
+		ifi, ok := b.Instrs[len(b.Instrs)-1].(*ssa.If)
+		if !ok {
+			continue
+		}
+		cond, neg := ifi.Cond, false
+		if u, ok := cond.(*ssa.UnOp); ok && u.Op == token.NOT {
+			cond, neg = u.X, true
+		}
+		ex, ok := cond.(*ssa.Extract)
+		if !ok || ex.Index != 1 {
+			continue
+		}
+		lk, ok := ex.Tuple.(*ssa.Lookup)
+		if !ok {
+			continue
+		}
+		if p, _ := ssax.Path(lk.X); !strings.Contains(p, "shardStore") {
+			continue
+		}
+		absent := 1
+		if neg {
+			absent = 0
+		}
+		banned = append(banned, ssax.Edge{From: b, Succ: absent})
+	}
+	seen := map[*ssa.BasicBlock]bool{}
+	var dfs func(b *ssa.BasicBlock) bool
+	dfs = func(b *ssa.BasicBlock) bool {
+		if b == rm.Block() {
+			// reached the removal's block without the delete: unless the delete comes first in it
+			return !(del.Block() == b && ssax.Precedes(del, rm))
+		}
+		if seen[b] || b == del.Block() {
+			return false
+		}
+		seen[b] = true
+		for i, sc := range b.Succs {
+			skip := false
+			for _, e := range banned {
+				if e.From == b && e.Succ == i {
+					skip = true
+				}
+			}
+			if !skip && dfs(sc) {
+				return true
+			}
+		}
+		return false
+	}
+	return dfs(f.Blocks[0])
+}
+
+var purityKey, purityServers *ssa.Parameter
+
+// hashInputLabels: provenance of the bytes handed to the hash. A buffer that is
+// reused for every server — key copied in once, then `append(buf[:len(key)],
+// server...)` — contains exactly the key followed by what is appended: the
+// truncation to len(key) discards what earlier rounds appended.
+func hashInputLabels(v ssa.Value, key *ssa.Parameter, depth int) ssax.Origins {
+	out := ssax.Origins{}
+	if depth > 6 {
+		out["other:too-deep"] = true
+		return out
+	}
+	merge := func(o ssax.Origins) {
+		for k := range o {
+			out[k] = true
+		}
+	}
+	isLenKey := func(x ssa.Value) bool {
+		call, ok := x.(*ssa.Call)
+		if !ok {
+			return false
+		}
+		bi, ok := call.Call.Value.(*ssa.Builtin)
+		return ok && bi.Name() == "len" && len(call.Call.Args) == 1 && call.Call.Args[0] == ssa.Value(key)
+	}
+	switch x := v.(type) {
+	case *ssa.Call:
+		if bi, ok := x.Call.Value.(*ssa.Builtin); ok && bi.Name() == "append" && len(x.Call.Args) == 2 {
+			merge(hashInputLabels(x.Call.Args[0], key, depth+1))
+			merge(hashInputLabels(x.Call.Args[1], key, depth+1))
+			return out
+		}
+	case *ssa.Slice:
+		if x.Low == nil && x.High != nil && isLenKey(x.High) && bufferStartsWithKey(x.X, key, map[ssa.Value]bool{}, 0) {
+			out["param:"+key.Name()] = true
+			return out
+		}
+		if x.Low == nil && x.High != nil {
+			if n, ok := ssax.ConstInt(x.High); ok && n == 0 {
+				return out // buf[:0]: nothing
+			}
+		}
+	case *ssa.Convert:
+		return hashInputLabels(x.X, key, depth+1)
+	case *ssa.MakeSlice:
+		if n, ok := ssax.ConstInt(x.Len); ok && n == 0 {
+			return out
+		}
+	}
+	return ssax.Prov(v)
+}
+
+// bufferStartsWithKey: the first len(key) bytes of the buffer are the key: it was
+// made with that length and the key copied into it, or built by appending to the
+// key, and every later value of it is an append to its own first len(key) bytes.
+func bufferStartsWithKey(v ssa.Value, key *ssa.Parameter, seen map[ssa.Value]bool, depth int) bool {
+	if seen[v] {
+		return true
+	}
+	seen[v] = true
+	if depth > 6 {
+		return false
+	}
+	switch x := v.(type) {
+	case *ssa.Phi:
+		for _, e := range x.Edges {
+			if !bufferStartsWithKey(e, key, seen, depth+1) {
+				return false
+			}
+		}
+		return len(x.Edges) > 0
+	case *ssa.Call:
+		bi, ok := x.Call.Value.(*ssa.Builtin)
+		if !ok || bi.Name() != "append" || len(x.Call.Args) != 2 {
+			return false
+		}
+		base := x.Call.Args[0]
+		// append(make(0,n), key...) / append([]byte(nil), key...)
+		if isEmptyBytes(base) {
+			first := x.Call.Args[1]
+			if cv, ok := first.(*ssa.Convert); ok {
+				first = cv.X
+			}
+			return first == ssa.Value(key)
+		}
+		// append(buf[:len(key)], ...) keeps the prefix
+		if sl, ok := base.(*ssa.Slice); ok && sl.Low == nil && sl.High != nil {
+			if call, ok := sl.High.(*ssa.Call); ok {
+				if b2, ok := call.Call.Value.(*ssa.Builtin); ok && b2.Name() == "len" && call.Call.Args[0] == ssa.Value(key) {
+					return bufferStartsWithKey(sl.X, key, seen, depth+1)
+				}
+			}
+		}
+		return bufferStartsWithKey(base, key, seen, depth+1)
+	case *ssa.MakeSlice:
+		// make([]byte, len(key), n) followed by copy(buf, key)
+		call, ok := x.Len.(*ssa.Call)
+		if !ok {
+			return false
+		}
+		if b2, ok := call.Call.Value.(*ssa.Builtin); !ok || b2.Name() != "len" || call.Call.Args[0] != ssa.Value(key) {
+			return false
+		}
+		for _, r := range *x.Referrers() {
+			if cp, ok := r.(*ssa.Call); ok {
+				if b3, ok := cp.Call.Value.(*ssa.Builtin); ok && b3.Name() == "copy" && cp.Call.Args[0] == ssa.Value(x) {
+					src := cp.Call.Args[1]
+					if cv, ok := src.(*ssa.Convert); ok {
+						src = cv.X
+					}
+					if src == ssa.Value(key) {
+						return true
+					}
+				}
+			}
+		}
+		return false
+	}
+	return false
+}
+
+// isEmptyBytes: a byte slice of length zero (nil, make(_, 0, n), x[:0]).
+func isEmptyBytes(v ssa.Value) bool {
+	switch x := v.(type) {
+	case *ssa.Const:
+		return x.Value == nil
+	case *ssa.MakeSlice:
+		n, ok := ssax.ConstInt(x.Len)
+		return ok && n == 0
+	case *ssa.Slice:
+		if x.Low == nil && x.High != nil {
+			n, ok := ssax.ConstInt(x.High)
+			return ok && n == 0
+		}
+	case *ssa.Convert:
+		if s, ok := ssax.ConstString(x.X); ok {
+			return s == ""
+		}
+	}
+	return false
 }
